@@ -258,7 +258,7 @@ func (x *Exec) doAppend(st *State, call *ast.CallExpr) Value {
 		for i, e := range elems {
 			arr = Store(arr, Add(base.Off, Add(base.Len, Int(int64(i)))), e)
 		}
-		st.heaps[key] = Store(h, base.Ref, arr)
+		st.heaps[key] = x.nameHeap(st, key, Store(h, base.Ref, arr))
 		return SliceV{Ref: base.Ref, Off: base.Off, Len: newLen, Cap: base.Cap, Elem: base.Elem}
 	}
 	return x.appendGeneral(st, call, base, key, es, h, k, func(t Term) Term {
@@ -419,7 +419,7 @@ func (x *Exec) applyContract(st *State, call *ast.CallExpr, key string, c *FuncC
 			x.check(st, "pre", fmt.Sprintf("pre/%s#%d.%d", short, i+1, j+1), cj, call.Pos(), r.Src)
 		}
 	}
-	if c.Panics != nil {
+	if c.Panics != nil && !c.PanicsOnly {
 		g := asTerm(x.evalSpec(envPre, c.Panics.E))
 		x.check(st, "pre", fmt.Sprintf("pre/%s#nopanic", short), Not(g), call.Pos(), "callee does not panic: !("+c.Panics.Src+")")
 	}
